@@ -341,7 +341,80 @@ func runC17(c *runCtx) {
 			}
 		}
 	}
+	c17OtherRepo(c, mrc, gh, web.Id(), snapshot)
 	_ = entity.Id("")
+}
+
+// c17OtherRepo: a second repository served by the same process, in which the request's user does not
+// exist; and an identity id no repository knows.  The user attached to a request is a user of the
+// repository the request is aimed at: a mutation (or an upload) aimed at a repository that does not know
+// that identity is refused and changes nothing there — whatever was asked of the other repository before.
+func c17OtherRepo(c *runCtx, mrc *cache.MultiRepoCache, gh http.Handler, user entity.Id, snapshotFirst func() string) {
+	repo2, dir2 := newGoGit("c17second", false)
+	rc2, events := mrc.RegisterRepository(repo2, "second")
+	for ev := range events {
+		if ev.Err != nil {
+			panic(ev.Err)
+		}
+	}
+	local, err := rc2.Identities().New("somebody else", "e@example.com")
+	if err != nil {
+		panic(err)
+	}
+	rc2.SetUserIdentity(local)
+	snap2 := func() string {
+		refs, _ := repo2.ListRefs("refs/")
+		sort.Strings(refs)
+		var sb strings.Builder
+		for _, r := range refs {
+			h, _ := repo2.ResolveRef(r)
+			sb.WriteString(r + "=" + string(h) + "\n")
+		}
+		sb.WriteString(fmt.Sprintf("bugs=%d objects=%d\n", len(rc2.Bugs().AllIds()), len(listFiles(filepath.Join(dir2, ".git", "objects")))))
+		return sb.String()
+	}
+	authed := auth.Middleware(user)(gh)
+	// first a request the first repository serves (the user is resolved there) …
+	if res, raw := gqlPost(authed, `mutation { newBug(input: {repoRef: "__default", title: "in the first repository", message: "m"}) { bug { id } } }`); res["errors"] != nil {
+		c.violation(-1, "C17/refused-with-user", "newBug with a user failed on the default repository: "+trunc(raw, 200), nil)
+	}
+	// … then the same user aims at the repository that does not know it
+	before := snap2()
+	res, raw := gqlPost(authed, `mutation { newBug(input: {repoRef: "second", title: "in the second repository", message: "m"}) { bug { id } } }`)
+	after := snap2()
+	c.count(fmt.Sprintf("other-repo/mutation-refused=%v", res["errors"] != nil))
+	if res["errors"] == nil || before != after {
+		c.violation(-1, "C17/foreign-user-accepted", fmt.Sprintf("a mutation aimed at a repository that does not know the request's user was carried out (errors: %v, repository changed: %v): %s", res["errors"] != nil, before != after, trunc(raw, 200)), map[string]any{"before": before, "after": after})
+	}
+	// the upload endpoint, for a repository that does not know the user, and with an id nobody knows
+	for _, tc := range []struct {
+		name, repo string
+		id         entity.Id
+	}{{"user of another repository", "second", user}, {"unknown id", "__default", entity.Id(strings.Repeat("ab", 32))}} {
+		router := mux.NewRouter()
+		up := auth.Middleware(tc.id)(httpapi.NewGitUploadFileHandler(mrc))
+		router.Path("/upload/{repo}").Methods("POST").Handler(up)
+		router.Path("/upload").Methods("POST").Handler(up)
+		var buf bytes.Buffer
+		mw := multipart.NewWriter(&buf)
+		fw, _ := mw.CreateFormFile("uploadfile", "x.png")
+		fw.Write(append([]byte("\x89PNG\r\n\x1a\n"), []byte(randHexId(c.rng, 20))...))
+		mw.Close()
+		url := "/upload"
+		if tc.repo != "" {
+			url += "/" + tc.repo
+		}
+		req := httptest.NewRequest("POST", url, &buf)
+		req.Header.Set("Content-Type", mw.FormDataContentType())
+		rec := httptest.NewRecorder()
+		b1, b2 := snapshotFirst(), snap2()
+		router.ServeHTTP(rec, req)
+		a1, a2 := snapshotFirst(), snap2()
+		c.count(fmt.Sprintf("other-repo/upload(%s)=%d", tc.name, rec.Code))
+		if rec.Code == http.StatusOK || b1 != a1 || b2 != a2 {
+			c.violation(-1, "C17/foreign-user-accepted", fmt.Sprintf("an upload with %s attached was answered %d (objects changed: %v)", tc.name, rec.Code, b1 != a1 || b2 != a2), nil)
+		}
+	}
 }
 
 // c17Recorded: after a mutation that reported success with a user attached, the requested change is
